@@ -62,6 +62,7 @@ OrderClauses(e, O) ==
               "C03_ordinal_group_not_contiguous")
     : f \in DOMAIN O.feats}
 
+RankPos(rk, c) == IF c[1] = NAN THEN 0 ELSE IF PosIn(rk, c[1]) > 0 THEN PosIn(rk, c[1]) ELSE PosIn(rk, c[2])
 (* C03: with float labels transform is non-decreasing in a quantitative value / in an ordinal rank *)
 MonotoneClauses(e, P) ==
   IF P.dtype # "float" THEN {}
@@ -75,7 +76,8 @@ MonotoneClauses(e, P) ==
     ELSE IF e.ranking[f] = <<>> THEN {}
     ELSE LET rk == e.ranking[f] IN
          Flag(\A i, j \in DOMAIN cells :
-                 LET a == PosIn(rk, cells[i][1])  b == PosIn(rk, cells[j][1]) IN
+                 \* a value is ranked through itself or through its string form (numeric codes)
+                 LET a == RankPos(rk, cells[i])  b == RankPos(rk, cells[j]) IN
                  (a > 0 /\ b > 0 /\ a <= b /\ o[i][1] = 1 /\ o[j][1] = 1) => o[i][2] <= o[j][2],
               "C03_ordinal_transform_not_monotone")
     : f \in DOMAIN P.feats}
@@ -121,6 +123,7 @@ JudgeTransform(e, P, O) ==
                  UNION {
                    LET cells == e.frame[f]  o == e.out[f] IN
                      Flag(ColumnAgrees(P, f, cells, o), IF e.seen[f] THEN "C04_label" ELSE "C05_label")
+                     \cup Flag(IntervalTextOK(P, f, cells, o), "C04_interval_label_text")
                      \cup Flag(\A i \in DOMAIN o : o[i][1] # 4, "C05_raw_value_leaked")
                    : f \in DOMAIN P.feats}
                  \cup MonotoneClauses(e, P)))
